@@ -343,6 +343,71 @@ def r102(facts, res):
         res.bad(R3, 'start-prod', loc_of(b, lit[0]), 'start_prod is not the first production of the added start rule')
 
 
+def r104(facts, res):
+    """declaration-order independence: nothing except maintenance of the parallel span table may be conditional on a name
+    being NEW to the token set (anything guarded by "first mention" makes the result depend on declaration order)"""
+    R = 'R10.4'
+    n = 0
+    for b in facts.lib_bodies(['cfgrammar']):
+        if not b.path.startswith('cfgrammar::yacc::parser::') or b.from_expansion:
+            continue
+        for bb, t in b.calls():
+            c = callee_of(t)
+            if c is None or c['name'] not in ('insert', 'insert_full'):
+                continue
+            st = c.get('self_ty') or ''
+            if not st.startswith('indexmap::set::IndexSet<alloc::string::String'):
+                continue
+            r, projs, via = b.op_root(t['args'][0])
+            fnames = [q.get('name') for pl in projs for q in pl if isinstance(q, dict) and 'f' in q]
+            if 'tokens' not in fnames:
+                continue
+            n += 1
+            dest = t['dest']['l']
+            # the switch testing the "newly inserted" flag
+            sw = None
+            for sb in b.reachable([t['ret']]) if t['ret'] is not None else []:
+                tt = b.term(sb)
+                if tt['k'] != 'switch':
+                    continue
+                pl = op_place(tt['on'])
+                if pl is None:
+                    continue
+                rr, pj, vv = b.root(pl['l'], through=(), stop_named=False)
+                if rr == dest and b.dominates(bb, sb):
+                    sw = sb
+                    break
+            key = 'first-mention:%s#%d' % (strip_generics(b.path).split('::')[-1], n)
+            if sw is None:
+                res.ok(R, key, loc_of(b, bb), 'the "newly inserted" flag of this token-set insertion guards nothing')
+                continue
+            tt = b.term(sw)
+            zero = [x for v, x in tt['targets'] if v == 0]
+            true_succ = tt['otherwise']
+            guarded = [x for x in b.reachable([true_succ]) if b.dominates(true_succ, x)]
+            offenders = []
+            for g in guarded:
+                gt = b.term(g)
+                if gt['k'] != 'call' or not gt['args']:
+                    continue
+                l0 = op_local(gt['args'][0])
+                if l0 is None or not b.lty(l0).startswith('&mut '):
+                    continue
+                rr, pj, vv = b.op_root(gt['args'][0])
+                fn = [q.get('name') for pl in pj for q in pl if isinstance(q, dict) and 'f' in q]
+                if cname(gt) == 'push' and 'spans' in fn:
+                    continue
+                if cname(gt) in ('deref_mut', 'as_mut', 'index_mut'):
+                    continue
+                offenders.append('%s on %s (line %s)' % (cname(gt), '.'.join(x for x in fn if x) or b.lty(l0)[:40], gt.get('line')))
+            if offenders:
+                res.bad(R, key, loc_of(b, sw), 'conditional on the token being new to the token set: %s - the result now depends on which declaration mentions the name first' % '; '.join(offenders))
+            else:
+                res.ok(R, key, loc_of(b, sw), 'only the parallel span table is extended when the name is new')
+    res.floor(R, 'token-set insertions in the Yacc parser', n, 5)
+
+
 def run(facts, res):
     r101(facts, res)
     r102(facts, res)
+    r104(facts, res)
